@@ -360,6 +360,8 @@ def oracle_c02(tables, seed, tier, deep):
         if "\n" in cs.text or "\n" in cs2.text or cs.text == cs2.text or c.eager or r1[i] != r2[i]:
             continue          # (a pair whose single lines already differ is reported above, under its own site)
         L, L2 = cs.text.encode("utf-8"), cs2.text.encode("utf-8")
+        if max(len(L), len(L2)) >= 65000:
+            continue          # the reader refuses lines beyond 64 KiB with an explicit error (C07): a re-assignment that makes the entry that long is another input class
         X = b'{"c":"NETWORK","msg":"between","attr":{"k":1}}'
         for tag, da, db in (("dup", L + b"\n" + L + b"\n", L + b"\n" + L2 + b"\n"), ("sep", L + b"\n" + X + b"\n" + L + b"\n", L + b"\n" + X + b"\n" + L2 + b"\n")):
             sops.append(("a%d%s" % (i, tag), ["stream", c.s(), "-", hx(da)]))
